@@ -5,6 +5,7 @@ use serde_json::Value as J;
 
 pub mod c02;
 pub mod c05;
+pub mod c07;
 pub mod c13;
 pub mod c18;
 
@@ -19,6 +20,7 @@ pub fn run(ctx: &Ctx) -> bool {
     match ctx.id.as_str() {
         "C02" => c02::run(ctx),
         "C05" => c05::run(ctx),
+        "C07" => c07::run(ctx),
         "C13" => c13::run(ctx),
         "C18" => c18::run(ctx),
         _ => return false,
@@ -30,6 +32,7 @@ pub fn replay(ctx: &Ctx, id: &str, kind: &str, case: &J) -> Vec<Fail> {
     match id {
         "C02" => c02::replay(ctx, kind, case),
         "C05" => c05::replay(ctx, kind, case),
+        "C07" => c07::replay(ctx, kind, case),
         "C13" => c13::replay(ctx, kind, case),
         "C18" => c18::replay(ctx, kind, case),
         _ => vec![Fail::new("harness", format!("no replay for property {}", id))],
